@@ -594,6 +594,66 @@ def main(run):
         run.count("api " + name)
         run.count("projection" if proj else "no-projection")
 
+    # ---------------------------------------------------------------- argument TYPES of the public entry points (child process, see c10_util.py)
+    import json as _json
+
+    tkinds = ["float32", "float16", "longdouble", "int32", "int64", "uint16", "float64", "list", "tuple", "list-of-numpy-scalars", "strided", "fortran-column", "reversed-view", "range"]
+    bkinds = ["list", "tuple", "int32", "int64", "intc", "uint8", "list-of-numpy-ints"]
+    skinds = ["python", "float32", "float64", "int64", "int32", "float16"]
+    nqt, nbt = 3, 4
+    frt = [[rng.uniform(1.0, 15.0) for _ in range(nbt)] for _ in range(nqt)]
+    wt = [rng.randint(1, 6) for _ in range(nqt)]
+    tcases = []
+    order = list(tkinds)
+    rng.shuffle(order)
+    for n_, tk in enumerate(["float32", "float16", "longdouble"] + [k_ for k_ in order if k_ not in ("float32", "float16", "longdouble")]):
+        temps_v = [0.0, 8.0, 64.0, 256.0, 1024.0] if tk != "range" else [0.0, 100.0, 200.0, 300.0]   # exactly representable in every type
+        bi_v = rng.choice([None, [[0, 2], [3]], [[1, 2, 3]]])
+        for lang in ("C", "Py"):
+            tcases.append(dict(id=len(tcases), route="class", lang=lang, temps=temps_v, temps_kind=tk, grid=None, grid_kind="python", frequencies=frt, weights=wt,
+                               cutoff=rng.choice([None, 0.5, 2]), cutoff_kind=rng.choice(skinds) , band_indices=bi_v, band_indices_kind=rng.choice(bkinds), classical=rng.random() < 0.2))
+    for gk in skinds[1:]:
+        tcases.append(dict(id=len(tcases), route="class", lang=rng.choice(["C", "Py"]), temps=None, temps_kind=None, grid=[0, 512, 64], grid_kind=gk, frequencies=frt, weights=wt,
+                           cutoff=None, cutoff_kind="python", band_indices=None, band_indices_kind="list", classical=False))
+    for tk in ["float32", rng.choice(["float16", "longdouble", "int32", "tuple"])]:
+        tcases.append(dict(id=len(tcases), route="api", lang="C", temps=[0.0, 16.0, 128.0, 512.0], temps_kind=tk, grid=None, grid_kind="python", frequencies=None, weights=None,
+                           cutoff=0.5, cutoff_kind=rng.choice(skinds), band_indices=rng.choice([None, [[0, 1, 2], [4, 5]]]), band_indices_kind=rng.choice(bkinds), classical=False))
+    tcases.append(dict(id=len(tcases), route="api", lang="C", temps=None, temps_kind=None, grid=[0, 256, 32], grid_kind=rng.choice(skinds[1:]), frequencies=None, weights=None,
+                       cutoff=0.5, cutoff_kind="python", band_indices=None, band_indices_kind="list", classical=False))
+    for tc in tcases:
+        if tc["cutoff_kind"] in ("int64", "int32") and tc["cutoff"] is not None:
+            tc["cutoff"] = int(tc["cutoff"]) if float(tc["cutoff"]).is_integer() else None
+        if tc["cutoff"] is None:
+            tc["cutoff_kind"] = "python"
+    env_ = dict(os.environ, VERIF_REPO=common.REPO, PYTHONDONTWRITEBYTECODE="1")
+    pr = subprocess.run([sys.executable, "-m", "harness.props.c10_util"], input=_json.dumps(dict(verif=common.VERIF, cases=tcases)), capture_output=True, text=True,
+                        cwd=common.VERIF, env=env_, timeout=600)
+    got = {}
+    for ln_ in pr.stdout.split("\n"):
+        if ln_.startswith("{"):
+            r_ = _json.loads(ln_)
+            got[r_["id"]] = r_
+    for tc in tcases:
+        desc = dict(route=tc["route"], lang=tc["lang"], temperatures=tc["temps"], temperatures_type=tc["temps_kind"], t_min_max_step=tc["grid"], t_min_max_step_type=tc["grid_kind"],
+                    cutoff_frequency=tc["cutoff"], cutoff_type=tc["cutoff_kind"], band_indices=tc["band_indices"], band_indices_type=tc["band_indices_kind"], classical=tc["classical"],
+                    weights=tc["weights"], frequencies_THz=tc["frequencies"])
+        site = "Phonopy.run_thermal_properties (argument types)" if tc["route"] == "api" else "ThermalProperties.run(lang='%s') (argument types)" % tc["lang"]
+        run.case(("argtype", tc["route"], tc["lang"], tc["temps_kind"], tc["grid_kind"], tc["cutoff_kind"], tc["band_indices_kind"], repr(tc["band_indices"]), tc["classical"]), nontrivial=True)
+        run.count("temperatures as %s" % (tc["temps_kind"] or "t_min/t_max/t_step " + tc["grid_kind"]))
+        r_ = got.get(tc["id"])
+        if r_ is None:
+            run.violation(site, "argument-type", "the process running this call died (exit code %s) before answering: %s" % (pr.returncode, pr.stderr[-300:]), desc)
+            break
+        if "exception" in r_:
+            run.violation(site, "argument-type", "a legal argument type is rejected: " + r_["exception"], desc)
+            continue
+        texp = tc["temps"] if tc["grid"] is None else list(np.arange(tc["grid"][0], tc["grid"][1] + tc["grid"][2] / 2.0, tc["grid"][2], dtype="double"))
+        fr_ = np.array(tc["frequencies"] if tc["route"] == "class" else r_["frequencies"])
+        w_ = tc["weights"] if tc["route"] == "class" else r_["weights"]
+        against_closed_form(run, units, site, "argument-type", (r_["t"], r_["F"], r_["S"], r_["Cv"]), fr_, w_, texp, desc,
+                            cut=tc["cutoff"], bi=tc["band_indices"], classical=tc["classical"])
+        run.count("oracle-argument-types", section="oracle")
+
     # ---------------------------------------------------------------- description invariance: the same crystal on relabelled (left-handed) lattice vectors
     nrel = 4 if thorough else 2
     for n_ in range(nrel):
